@@ -1,10 +1,241 @@
-//! C14 — not built yet.
-use crate::ev::Ctx;
-pub fn run(_ctx: &Ctx) -> i32 {
-    println!("INCONCLUSIVE property=C14 check not built yet");
-    2
+//! C14 — CLI source-format resolution and agreement with the library.
+//!
+//! Inputs with every extension spelling in every letter case, multi-dot names,
+//! no or misleading extensions, contents of every format, as regular files
+//! (mmap), FIFOs and standard input ('-' at each position, '-' twice), with and
+//! without -f, for all targets. The expected source format is -f, else the last
+//! extension, else detection; stdout must equal what the library produces for
+//! the same bytes in the matching supply mode.
+
+use std::collections::BTreeMap;
+
+use serde_json::{json, Value};
+
+use crate::climodel::{self, PathKind};
+use crate::corpus::valid_stream;
+use crate::ev::{self, Acc, Ctx, Finish, Violation};
+use crate::fmts::{Fmt, ALL};
+use crate::gen::{Classes, GenOpts};
+use crate::model::{hex, preview, unhex};
+use crate::procmon::{self, Run, Scratch, StdinKind, StdoutKind};
+use crate::rng::Rng;
+use crate::spell::Feats;
+
+const EXTS: &[&str] = &["json", "yaml", "yml", "toml", "msgpack"];
+
+fn random_case(s: &str, rng: &mut Rng) -> String {
+    s.chars().map(|c| if rng.chance(1, 2) { c.to_ascii_uppercase() } else { c }).collect()
 }
-pub fn replay(_case: &serde_json::Value) -> i32 {
-    println!("replay not built yet");
-    2
+
+#[derive(Clone, Debug)]
+pub struct Input {
+    pub name: String, // "-" for standard input
+    pub kind: &'static str, // regular | fifo | stdin | directory | missing
+    pub content: Vec<u8>,
+}
+
+#[derive(Clone, Debug)]
+pub struct Case {
+    pub from: Option<Fmt>,
+    pub to: Fmt,
+    pub inputs: Vec<Input>,
+    pub stdin: Vec<u8>,
+}
+
+fn content(rng: &mut Rng, cl: &mut Classes) -> (Vec<u8>, &'static str) {
+    let o = GenOpts { max_depth: 3, max_width: 3, ..GenOpts::common() };
+    let mut feats = Feats::default();
+    match rng.below(10) {
+        0 => ((*rng.pick(&[&b"[1]"[..], b"{}", b"1 = 2\n", b"\"a\" = 1\n", b"[a]\n", b"a: b\n", b"k = \"a: b\"\n"])).to_vec(), "valid_in_several_formats"),
+        1 => ((*rng.pick(&[&b"{\"a\": [}"[..], b"\x01\x02 nothing", b"a: [unclosed\n", b"= 1\n", b"\xc1"])).to_vec(), "invalid"),
+        _ => {
+            let f = ALL[rng.below(4)];
+            let n = if f == Fmt::Toml { 1 } else { *rng.pick(&[1usize, 1, 2, 3]) };
+            let (b, _) = valid_stream(f, n, rng, &mut feats, cl, &o);
+            (b, match f { Fmt::Json => "json_content", Fmt::Yaml => "yaml_content", Fmt::Toml => "toml_content", Fmt::Msgpack => "msgpack_content" })
+        }
+    }
+}
+
+pub fn gen_case(seed: u64, idx: usize, acc: &mut Acc) -> Case {
+    let mut rng = Rng::derive(seed, 0xc14, idx as u64);
+    let mut cl = Classes::default();
+    let from = if rng.chance(1, 3) { Some(ALL[rng.below(4)]) } else { None };
+    let to = ALL[rng.below(4)];
+    let n = *rng.pick(&[1usize, 1, 1, 2, 3]);
+    let mut inputs = vec![];
+    let mut stdin = vec![];
+    for i in 0..n {
+        let (mut bytes, cclass) = content(&mut rng, &mut cl);
+        acc.count(&format!("content_{cclass}"));
+        // a document-less YAML file read as a slice is a recorded C02 finding: keep it out
+        if crate::read::yaml::read_docs(&bytes).map(|d| d.is_empty()).unwrap_or(false) {
+            bytes = b"a: 1\n".to_vec();
+        }
+        let kind = match rng.below(12) {
+            0 | 1 | 2 => "stdin",
+            3 | 4 => "fifo",
+            5 if n > 1 => "directory",
+            6 if n > 1 => "missing",
+            _ => "regular",
+        };
+        if kind == "stdin" {
+            if !inputs.iter().any(|x: &Input| x.kind == "stdin") {
+                stdin = bytes.clone();
+            }
+            inputs.push(Input { name: "-".into(), kind, content: bytes });
+            continue;
+        }
+        let e1: &str = EXTS[rng.below(EXTS.len())];
+        let e2: &str = EXTS[rng.below(EXTS.len())];
+        let e1c = random_case(e1, &mut rng);
+        let ext = match rng.below(10) {
+            0 => String::new(),
+            1 => ".txt".into(),
+            2 => format!(".tar.{e1c}"),
+            3 => format!(".{e1}.bak"),
+            4 => format!(".{e2}.{e1c}"),
+            _ => format!(".{e1c}"),
+        };
+        acc.count(&format!("extension_kind_{}", match ext.matches('.').count() { 0 => "none", 1 => "single", _ => "multi_dot" }));
+        if ext.chars().any(|c| c.is_ascii_uppercase()) {
+            acc.count("extension_with_upper_case");
+        }
+        inputs.push(Input { name: format!("in{i}{ext}"), kind, content: bytes });
+    }
+    Case { from, to, inputs, stdin }
+}
+
+pub fn judge(case: &Case, acc: &mut Acc) {
+    acc.evals += 1;
+    let sc = Scratch::new();
+    let mut files: BTreeMap<String, PathKind> = BTreeMap::new();
+    let mut fifo_threads = vec![];
+    let mut argv: Vec<String> = vec![];
+    if let Some(f) = case.from {
+        argv.push(format!("-f{}", f.letter()));
+    }
+    argv.push("-t".into());
+    argv.push(case.to.name().into());
+    for inp in &case.inputs {
+        match inp.kind {
+            "stdin" => {}
+            "regular" => {
+                sc.file(&inp.name, &inp.content);
+                files.insert(inp.name.clone(), PathKind::Regular(inp.content.clone()));
+            }
+            "fifo" => {
+                sc.fifo(&inp.name);
+                files.insert(inp.name.clone(), PathKind::Fifo(inp.content.clone()));
+            }
+            "directory" => {
+                let _ = std::fs::create_dir_all(sc.path().join(&inp.name));
+                files.insert(inp.name.clone(), PathKind::Directory);
+            }
+            _ => {
+                files.insert(inp.name.clone(), PathKind::Missing);
+            }
+        }
+        argv.push(inp.name.clone());
+    }
+    let exp = climodel::emulate(case.from, case.to, &case.inputs.iter().map(|i| i.name.clone()).collect::<Vec<_>>(), &files, &case.stdin, &StdoutKind::Pipe);
+    // FIFOs are fed only as far as the model says xt will get (an earlier failure means later FIFOs are never opened)
+    let reached = exp.inputs.len() + 1;
+    for (n, inp) in case.inputs.iter().enumerate() {
+        if inp.kind == "fifo" && n < reached {
+            fifo_threads.push(procmon::feed_fifo(sc.path().join(&inp.name), inp.content.clone()));
+        }
+    }
+    let out = procmon::run(Run { bin: &procmon::release_bin(), argv: argv.clone(), cwd: sc.path(), stdin: StdinKind::Bytes(case.stdin.clone()), stdout: StdoutKind::Pipe, wall_secs: 60, cpu_secs: 20 });
+    for inp in &exp.inputs {
+        acc.count(&format!("resolved_{}_{}", inp.1, inp.2));
+    }
+    for inp in &case.inputs {
+        acc.count(&format!("input_kind_{}", inp.kind));
+    }
+    if case.inputs.iter().filter(|i| i.kind == "stdin").count() >= 2 {
+        acc.count("stdin_named_twice");
+    }
+    if matches!(out.status, procmon::Status::Timeout | procmon::Status::SpawnError(_)) {
+        acc.inconclusive += 1;
+        return;
+    }
+    if let Err(e) = climodel::judge_run(&out, &exp) {
+        acc.violation(Violation {
+            sig: format!("{}", ev::truncate(&crate::c02_mask(&e), 90)),
+            case: json!({"from": case.from.map(|f| f.name()), "to": case.to.name(), "stdin_hex": hex(&case.stdin), "inputs": case.inputs.iter().map(|i| json!({"name": i.name, "kind": i.kind, "content_hex": hex(&i.content), "content_preview": preview(&i.content, 80)})).collect::<Vec<_>>()}),
+            observed: format!("{e}; argv {:?}; status {}, stdout [{}], stderr [{}]", argv, out.status.show(), preview(&out.stdout, 120), preview(&out.stderr, 160)),
+            expected: format!("exit {} ({}); inputs resolved as {:?}", exp.exit, exp.why, exp.inputs),
+        });
+    }
+    // do not leave feeder threads blocked on FIFOs nobody opened
+    drop(sc);
+    let _ = fifo_threads;
+}
+
+/// Evidence only: how the binary obtained its input, as seen by strace.
+fn strace_sample(acc: &mut Acc) {
+    let sc = Scratch::new();
+    sc.file("s.json", b"{\"a\": 1}\n");
+    let bin = procmon::release_bin();
+    let run = |args: &[&str], stdin: Option<&[u8]>| -> String {
+        let mut cmd = std::process::Command::new("strace");
+        cmd.arg("-e").arg("trace=mmap,read,openat").arg(&bin).args(args).current_dir(sc.path()).stdout(std::process::Stdio::null()).stderr(std::process::Stdio::piped());
+        cmd.stdin(if stdin.is_some() { std::process::Stdio::piped() } else { std::process::Stdio::null() });
+        let Ok(mut ch) = cmd.spawn() else { return String::new() };
+        if let (Some(b), Some(mut si)) = (stdin, ch.stdin.take()) {
+            use std::io::Write;
+            let _ = si.write_all(b);
+        }
+        ch.wait_with_output().map(|o| String::from_utf8_lossy(&o.stderr).into_owned()).unwrap_or_default()
+    };
+    let file_trace = run(&["s.json"], None);
+    let stdin_trace = run(&[], Some(b"{\"a\": 1}\n"));
+    let mapped = file_trace.lines().filter(|l| l.contains("mmap(") && l.contains("MAP_SHARED") && l.contains("PROT_READ")).count();
+    let read0 = stdin_trace.lines().filter(|l| l.starts_with("read(0,")).count();
+    acc.add("strace_regular_file_shared_read_mappings", mapped as u64);
+    acc.add("strace_stdin_read_calls", read0 as u64);
+}
+
+pub fn run(ctx: &Ctx) -> i32 {
+    let n = ctx.size(5000, 100000);
+    let seed = ctx.seed;
+    let mut acc = crate::par::run(n, 8, |i, acc| {
+        let case = gen_case(seed, i, acc);
+        acc.distinct(&format!("{:?}", case));
+        acc.sample_every(499, || json!({"from": case.from.map(|f| f.name()), "to": case.to.name(), "inputs": case.inputs.iter().map(|x| json!({"name": x.name, "kind": x.kind, "content_preview": preview(&x.content, 60)})).collect::<Vec<_>>()}));
+        judge(&case, acc);
+    });
+    strace_sample(&mut acc);
+    let rule = format!("{} invocations: -f absent or each format x 1-3 inputs, each a regular file / FIFO / '-' (also twice) / directory / missing file, named with every extension in random letter case, multi-dot, none or misleading, holding content of each format (1-3 generated documents), content valid in several formats, or invalid content, x all targets; expected stdout and exit status computed by the library in the matching supply mode; distinct non-trivial = distinct invocations", n);
+    ev::finish(
+        Finish { ctx, level: "exploration", rule, assumptions: vec!["document-less YAML regular files are kept out (recorded C02 finding)".into(), "strace counters are evidence that both supply modes were really observed, not an oracle".into()], extra: serde_json::Map::new(), exhaustive: false, min_distinct: 1000, must_reach: vec![("input_kind_fifo".into(), 200), ("input_kind_stdin".into(), 200), ("input_kind_regular".into(), 1000), ("extension_with_upper_case".into(), 500), ("extension_kind_multi_dot".into(), 200), ("stdin_named_twice".into(), 20), ("resolved_detect_slice".into(), 100), ("resolved_detect_reader".into(), 100)] },
+        acc,
+    )
+}
+
+pub fn replay(v: &Value) -> i32 {
+    let c = &v["case"];
+    let mut inputs = vec![];
+    for i in c["inputs"].as_array().cloned().unwrap_or_default() {
+        let kind: &'static str = match i["kind"].as_str() {
+            Some("fifo") => "fifo",
+            Some("stdin") => "stdin",
+            Some("directory") => "directory",
+            Some("missing") => "missing",
+            _ => "regular",
+        };
+        inputs.push(Input { name: i["name"].as_str().unwrap_or("x").into(), kind, content: i["content_hex"].as_str().and_then(unhex).unwrap_or_default() });
+    }
+    let Some(to) = c["to"].as_str().and_then(Fmt::parse) else { return 2 };
+    let case = Case { from: c["from"].as_str().and_then(Fmt::parse), to, inputs, stdin: c["stdin_hex"].as_str().and_then(unhex).unwrap_or_default() };
+    let mut acc = Acc::default();
+    judge(&case, &mut acc);
+    if acc.vio_count > 0 {
+        println!("VIOLATION property=C14 replay=<this file> (reproduced): {}", acc.violations[0].observed);
+        1
+    } else {
+        println!("not reproduced");
+        0
+    }
 }
